@@ -122,6 +122,11 @@ def _prim(x):
     return x is None or (isinstance(x, (int, str, bool, float)) or type(x).__module__ == "uuid")
 
 
+class DDict(dict):
+    """collections.defaultdict as modelled by the interpreter (factory is an interpreter callable)"""
+    factory = None
+
+
 class Opaque:
     """a value the interpreter does not model (strings built by formatting, external objects)"""
 
@@ -327,7 +332,8 @@ class Interp:
             if obj[1] == "warnings":
                 return ("native", lambda *a, **k: None)
             import importlib
-            return ("native", getattr(importlib.import_module(obj[1]), name))
+            val = getattr(importlib.import_module(obj[1]), name)
+            return ("native", val) if callable(val) else val
         if isinstance(obj, SetVal):
             return ("pymethod", obj, name)
         if isinstance(obj, (list, tuple, dict, set, str)) and hasattr(obj, name):
@@ -728,7 +734,7 @@ class Interp:
                 return ("bound", mod.funcs[n.id], None)
             if mod is not None and n.id in mod.assigns:
                 return self.eval(mod.assigns[n.id], {}, func, depth)
-            if mod is not None and n.id in mod.imports and mod.imports[n.id][0] in ("re", "math", "hashlib", "itertools") \
+            if mod is not None and n.id in mod.imports and mod.imports[n.id][0] in ("re", "math", "hashlib", "itertools", "string") \
                     and mod.imports[n.id][1] is None:
                 return ("pymodule", mod.imports[n.id][0])
             if mod is not None and n.id in mod.imports and mod.imports[n.id] == ("uuid", "UUID"):
@@ -736,6 +742,8 @@ class Interp:
                 return ("native", uuid.UUID)
             if mod is not None and n.id in mod.imports and mod.imports[n.id][0] == "warnings":
                 return ("native", lambda *a, **k: None) if mod.imports[n.id][1] else ("pymodule", "warnings")
+            if mod is not None and n.id in mod.imports and mod.imports[n.id] == ("collections", "defaultdict"):
+                return ("builtin", "defaultdict")
             if mod is not None and n.id in mod.imports and mod.imports[n.id] == ("dataclasses", "astuple"):
                 return ("builtin", "astuple")
             if mod is not None and n.id in mod.imports and mod.imports[n.id][0] in ("itertools", "functools") \
@@ -853,6 +861,9 @@ class Interp:
                 for kk, vv in o.items():
                     if self.equals(kk, k, depth):
                         return vv
+                if isinstance(o, DDict) and o.factory is not None:
+                    o[k] = self.apply(o.factory, [], {}, func, depth)
+                    return o[k]
                 raise Raised("KeyError", repr(k))
             if isinstance(o, (list, tuple, str)):
                 try:
@@ -1344,6 +1355,10 @@ class Interp:
                 return 0
 
             return [x for _, x in sorted(items, key=functools.cmp_to_key(cmp), reverse=rev)]
+        if name == "defaultdict":
+            d = DDict()
+            d.factory = args[0] if args else None
+            return d
         if name == "map":
             return _Gen([self.apply(args[0], [x], {}, func, depth) for x in self.iterate(args[1])])
         if name == "astuple":
